@@ -1072,8 +1072,8 @@ int EGLPNUM_TYPENAME_ILLlib_addrows (
 
 		lp->nrows = lp->O->nrows;
 		lp->ncols = lp->O->ncols;
-		if (B->rownorms_size < lp->O->nrows + num)
-			EGLPNUM_TYPENAME_EGlpNumReallocArray (&(B->rownorms), lp->O->nrows + num);
+		/* B->rownorms_size is never maintained (nor initialised): always resize */
+		EGLPNUM_TYPENAME_EGlpNumReallocArray (&(B->rownorms), lp->O->nrows + num);
 
 		ILL_SAFE_MALLOC (bcnt, num, int);
 		ILL_SAFE_MALLOC (bbeg, num, int);
@@ -1192,8 +1192,7 @@ int EGLPNUM_TYPENAME_ILLlib_addrows (
 			MESSAGE (__QS_SB_VERB, "Singular Basis found!");
 		*factorok = 1;
 
-		if (B->rownorms_size < lp->O->nrows)
-			EGLPNUM_TYPENAME_EGlpNumReallocArray (&(B->rownorms), lp->O->nrows);
+		EGLPNUM_TYPENAME_EGlpNumReallocArray (&(B->rownorms), lp->O->nrows);
 
 		ILL_SAFE_MALLOC (rindi, lp->O->nrows /* num */ , int);
 
